@@ -311,7 +311,26 @@ class Model:
     # ------------------------------------------------------------------ running
     def run(self):
         try:
-            self.driver()
+            nsess = int(self.case.get("driver", {}).get("sessions", 1))
+            for sess in range(nsess):
+                if sess:
+                    # the scanner was destroyed: it must behave as if fresh
+                    self.emit(["X", "session", str(sess)])
+                    self.sc = 0
+                    self.stack = []
+                    self.bufs = {}
+                    self.bstack = []
+                    self.more = b""
+                    self.more_pending = False
+                    self.g_lineno = 1
+                    self.wrapk = 0
+                    self.ncalls = 0
+                    self.f("destroy_and_reuse")
+                self.driver()
+                for op in self.case.get("driver", {}).get("fini", []):
+                    self.do_x(op)
+                if self.o.get("ledger") and sess < nsess - 1:
+                    self.emit(["A", "live", "0", "*", "*", "*"], wild={3, 4, 5})
             if self.o.get("ledger"):
                 # after the user deleted their own buffers and destroyed the scanner every
                 # block obtained through yyalloc/yyrealloc must have gone through yyfree
@@ -383,6 +402,15 @@ class Model:
             # look-ahead needed to delimit it) that does not fit ends in the documented
             # fatal error; accepted only when it really does not fit
             ob = self.peek()
+            ylm = self.o.get("yylmax")
+            if self.array and ylm and ob is not None and ob[:2] == ["F", "toobig"] and \
+                    len(prefix) + examined + 1 >= ylm:
+                # %array: the text scanned so far (look-ahead included) is copied into the
+                # YYLMAX-sized yytext whenever a buffer boundary is met, so the documented
+                # fatal error may already come while a shorter token is being delimited
+                self.emit(["F", "toobig"])
+                self.f("token_too_large")
+                raise Stop()
             if ob is not None and ob[:2] == ["F", "reject_ovf"]:
                 bs = self.case.get("bufsize") or self.o.get("bufsize") or 0
                 if bs and len(prefix) + examined + 2 >= bs:
@@ -437,6 +465,15 @@ class Model:
         else:
             h = total
         text = prefix + bytes(b.data[start:start + h])
+        ylm = self.o.get("yylmax")
+        if self.array and ylm:
+            ob = self.peek()
+            if len(text) >= ylm:
+                # %array: yytext holds YYLMAX characters; a longer token is the documented
+                # fatal error (the whole match incl. trailing context is copied first)
+                self.emit(["F", "toobig"])
+                self.f("token_too_large")
+                raise Stop()
         b.pos = start + h
         self.text = text
         self.tok_start = start
@@ -782,6 +819,10 @@ class Model:
         elif k in ("gcreate", "gswitch", "gpush", "gpop", "gdelete", "gscan_bytes",
                    "gscan_string", "gscan_buffer", "gflush"):
             self.do_guarded(op)
+        elif k == "gdelete_all":     # the user deletes their own non-current buffers
+            for s_ in [x for x in self.bufs if x not in self.bstack]:
+                del self.bufs[s_]
+            self.emit(["X", "delete_all"])
         elif k == "setlineno":
             if self.track_ln:
                 if self.per_buf_lineno:
